@@ -272,6 +272,19 @@ def r4(ctx: Ctx) -> None:
         sc = kws[c.id]["schemas"][0]
         cids = kws[c.id].get("current_schema_id", [])
         cid = cids[0] if cids else None
+        def _given(e):  # type: ignore[no-untyped-def]
+            """the arm of `a if schema is None else b` / `b if schema is not None else a` that applies when a schema was given"""
+            if isinstance(e, ast.IfExp):
+                t = e.test
+                if isinstance(t, ast.Compare) and len(t.ops) == 1 and isinstance(t.left, ast.Name) and t.left.id == "schema" \
+                        and isinstance(t.comparators[0], ast.Constant) and t.comparators[0].value is None:
+                    if isinstance(t.ops[0], ast.Is):
+                        return e.orelse, True
+                    if isinstance(t.ops[0], ast.IsNot):
+                        return e.body, True
+            return e, False
+        sc, g1 = _given(sc)
+        cid, g2 = _given(cid) if cid is not None else (None, False)
         ok = isinstance(sc, ast.List) and "schema" in names_in(sc) and cid is not None and norm_text(cid) == "schema.schema_id"
         # the schema is only stored when one was given: the constructor call, or the statement that puts `schemas` into
         # the keyword dict, is reached under `schema is not None`
@@ -279,7 +292,7 @@ def r4(ctx: Ctx) -> None:
                        and isinstance(n.ast.targets[0].slice, ast.Constant) and n.ast.targets[0].slice.value == "schemas"]
         guarded = any(any(pol in ("nonnull", "true") and isinstance(e, ast.Name) and e.id == "schema" for pol, e, _a in facts_at(ctx, it, s_))
                       for s_ in sites)
-        ok = ok and guarded
+        ok = ok and (guarded or (g1 and g2))
     ctx.ob("C18.R4", it, "TableMetadata carries the schema and its id", with_schema[0] if with_schema else None, ok,
            "schemas=[schema], current_schema_id=schema.schema_id under `schema is not None`")
     im = [n for n in g.calls() if any(t.name == "initialize_table" for t in ctx.eff.callees(it, n))]
